@@ -118,6 +118,8 @@ where
                             }
                             Err((mut event, err)) => {
                                 event.ingest = ProcessorStatus::Failed(err);
+                                // Operations which failed validation must not prune anything.
+                                event.skip_log_prune();
                                 event
                             }
                         })
